@@ -221,6 +221,8 @@ class Gef:
                             a = strip(a)
                             if a.kind == 'const' and isinstance(a.args[0], (int, bool)) and not prog.is_empty_ref(a) and not prog.is_nil_index(a):
                                 consts[i + 1] = int(a.args[0])
+                            elif a.kind == 'agg' and a.extra.get('akind') == 'adt' and a.extra.get('variant') is not None and 'idx' in a.extra['variant']:
+                                consts[('discr', i + 1)] = int(a.extra['variant']['idx'])     # an enum variant built on the spot: its discriminant is known
                         tgt_s = prog.specialise(tgt, consts) if consts else tgt
                         sub = Gef(prog, tgt_s, self.mirror, inline=True, stack=self.stack | {self.fn.path}).effects()
                         argt = {'<P%d>' % (i + 1): self.term(a) for i, a in enumerate(c.args)}
